@@ -565,9 +565,10 @@ def ob_e(ob):
     from seqm.seqm_functions import fermi_q as FQ
 
     ob.encodes(FQ.Fermi_Q)
-    ob.bound("2 molecules x 4 orbital slots (molecule 1 has 2 physical orbitals and 2 padded slots); orbital energies symbolic; the Fermi function is uninterpreted: every evaluation returns fresh values in (0,1); exits of the Newton loop after 1 and after 2 evaluations are explored")
+    ob.bound("2 molecules x 4 orbital slots (molecule 1 has 2 physical orbitals and 2 padded slots); orbital energies symbolic; the Fermi function is uninterpreted: every evaluation returns fresh values in (0,1); exits of the Newton loop after 1 and 2 (thorough: also 3) evaluations are explored")
     ob.assume("eigen-solver replaced by a recorder (eigenvectors = identity); density/entropy assembly after the loop is executed but only occupations are checked")
     E = S.reals("e", (2, 4))
+    nev = 2 if ob.tier != "thorough" else 3
     calls = [0]
     fsyms = []
     saved = (FQ.sym_eig_trunc, torch.sigmoid)
@@ -575,7 +576,7 @@ def ob_e(ob):
 
     def sigmoid(x):
         calls[0] += 1
-        if calls[0] > 2:
+        if calls[0] > nev:
             raise _StopFermi()
         f = S.reals("f%d" % calls[0], (2, 4))
         fsyms.append(f)
@@ -594,9 +595,9 @@ def ob_e(ob):
         Fe = out[4]
         return (Fe.a.copy() if isinstance(Fe, SymTensor) else S.to_obj(Fe), calls[0])
 
-    rng = [z3.And(z3.Real("f%d_%d_%d" % (c, b, k)) > 0, z3.Real("f%d_%d_%d" % (c, b, k)) < 1) for c in (1, 2) for b in range(2) for k in range(4)]
+    rng = [z3.And(z3.Real("f%d_%d_%d" % (c, b, k)) > 0, z3.Real("f%d_%d_%d" % (c, b, k)) < 1) for c in range(1, nev + 1) for b in range(2) for k in range(4)]
     try:
-        ex = Explorer(assumptions=rng, piecewise="ite", kind="nra", max_paths=40)
+        ex = Explorer(assumptions=rng, piecewise="ite", kind="nra", max_paths=80)
         res = ex.run(fn)
     finally:
         FQ.sym_eig_trunc, torch.sigmoid = saved
